@@ -66,6 +66,7 @@ func runCLI(bin, dir string, args []string, extraEnv []string) CLIResult {
 			r.Exit = ee.ExitCode()
 		} else {
 			r.Exit = -2
+			r.Stderr += "harness: " + err.Error()
 		}
 	}
 	switch {
